@@ -3,6 +3,7 @@ import math
 import random
 
 from vpm import attach
+from vpm import tol
 
 ID = "C11"
 RULE = ("Seeded generation. Kepler: e uniform [0,1) and {0, 1e-12, 0.5, 0.9, "
@@ -143,7 +144,7 @@ def case_kepler(mon, e, Mdeg):
         mon.cls("|M|>360", ident)
     _state["internal"] = False
     try:
-        C.kepler_equation(e, Angle(Mdeg))
+        C.kepler_equation(e, tol.T(Mdeg))    # vpm/tol.py
     except Exception as ex:
         mon.dev("kepler.accepts", {"e": e, "M": Mdeg, "raised": repr(ex)})
     finally:
